@@ -8,9 +8,23 @@
      C04_complete : forall bs, ref_strict bs = true -> exists r, dns_parse bs 0 = Ok r
    Both are decided on every run by the oracle (FAIL ref-mismatch / ref-accepts) on the real
    library; the theorems below are the parts proved for ALL inputs so far. *)
-From CAres.Wire Require Import Cursor Name Record Parse Escape Escape_proofs RefDecode RefDecode_proofs.
+From CAres.Wire Require Import Cursor Name Record Parse Escape Escape_proofs RefDecode RefDecode_proofs Name_ref.
 From CAres.Gen Require Import Consts.
 Local Open Scope Z_scope.
+
+(* NAMES, both directions, all inputs: on any block of octets, at any offset, the model of
+   ares_dns_name_parse accepts exactly the names the RFC 1035 4.1.4 reference walk accepts, returns
+   exactly their labels (as escaped text) and leaves the cursor exactly behind the name (after the
+   first pointer, or after the terminating zero octet) - the name part of C04_sound and C04_complete *)
+Theorem C04_name_agreement : forall fuel c,
+  cur_ok c -> exact c -> bytes_ok (c_data c) -> (name_fuel c <= fuel)%nat ->
+  match ref_name (c_data c) (Z.to_nat (c_off c)) with
+  | Some (labels, e) => dns_name_parse fuel c true false = Ok (escape_name labels, set_off c (Z.of_nat e))
+                        /\ Forall nonempty labels
+  | None => exists s, dns_name_parse fuel c true false = Err s
+  end.
+Proof. exact name_parse_ref. Qed.
+Print Assumptions C04_name_agreement.
 
 (* presentation-format names round-trip through escaping without changing the label octets:
    for all label lists (non-empty labels of octets), whatever octets they contain *)
